@@ -9,7 +9,7 @@
 -/
 import TshVerif.Model.Lexer
 import TshVerif.Model.Ast
-import TshVerif.Model.EmitBash
+import TshVerif.Model.Transpile
 namespace Tsh.Parser
 open Tsh Tsh.LexTables
 
@@ -176,7 +176,7 @@ def typeOfName (s : String) : Option DataType :=
 
 def vtUnknown : ValueType := ⟨.unknown, false⟩
 
-open Tsh.Bash (Expr.valueType fnValueType)
+open Tsh.Tr (Expr.valueType fnValueType)
 
 def allowedBinary (t : ValueType) : List String :=
   if t.isSlice then [] else
